@@ -25,6 +25,8 @@ def check(run):
     del run.rules["C05-f"]
     run.assumptions += ["that the random search finds a multiplier (or terminates) for a given id set, and the numeric content of the tables, are run-time values: not decided",
                         "the exhaustion path (hash_search_error + abort) is an instance of C02-abort"]
+    from .. import crules as _cr
+    _cr.facet_rules(run, "C05-facets")
     return run.finish(level="other", explanation="AST rules on fast_perfect_hash::hash_initialize / hash_type_id, checked_perfect_hash and vptr_vector::publish_vptrs: path "
                       "enumeration of the scan body under 'bucket occupied / free', position of the only normal return, equality of the probe and look-up "
                       "expressions, constants of the empty-bucket marker, CFG control dependence of the sizing and publishing calls.")
